@@ -31,7 +31,9 @@ fn handler_app_array(ps: &[(String, String)]) -> Ohkami {
 }
 
 fn gen_part(rng: &mut Rng, colon_ok: bool) -> String {
-    let s = match rng.below(8) {
+    let s = match rng.below(9) {
+        // names and passwords people really have: characters of the Latin-1 range (one byte in ISO-8859-1, two in UTF-8), other scripts, symbols
+        8 => rng.pick(&["rené", "pässword", "señor", "ñandú", "café", "£5", "Ærø", "naïve", "ÿ", "µ", "日本語", "пароль", "é"]).to_string(),
         0 => String::new(),
         1 => rng.unicode_string(8),
         2 => "pass:word".to_string(),
@@ -112,6 +114,21 @@ fn gen_headers(rng: &mut Rng, pairs: &[(String, String)]) -> Vec<(&'static str, 
             let j = (i + 1) % pairs.len();
             v.push(("mixed-pairs", Some(format!("Basic {}", enc(&pairs[i].0, &pairs[j].1)).into_bytes())));
         }
+    }
+    // a configured pair in another character encoding is another byte string, hence not the configured credential (the base64 payload is
+    // compared as UTF-8 text; RFC 7617 knows no fallback): ISO-8859-1, UTF-16, UTF-8 behind a byte-order mark
+    for (u, p) in pairs {
+        let text = format!("{u}:{p}");
+        if !text.is_ascii() {
+            if text.chars().all(|c| (c as u32) < 256) {
+                let latin1: Vec<u8> = text.chars().map(|c| c as u32 as u8).collect();
+                v.push(("configured-pair-in-latin1", Some(format!("Basic {}", b64_encode(&latin1, false, true)).into_bytes())));
+            }
+            let utf16le: Vec<u8> = text.encode_utf16().flat_map(|w| w.to_le_bytes()).collect();
+            v.push(("configured-pair-in-utf16", Some(format!("Basic {}", b64_encode(&utf16le, false, true)).into_bytes())));
+        }
+        let bom = [b"\xef\xbb\xbf".to_vec(), text.clone().into_bytes()].concat();
+        v.push(("configured-pair-behind-bom", Some(format!("Basic {}", b64_encode(&bom, false, true)).into_bytes())));
     }
     // payloads that are not UTF-8 after decoding
     for raw in [vec![0xffu8], b"user:\xff".to_vec(), b"\xc3:x".to_vec(), b"ab:cd\xe3\x81".to_vec(), vec![0x80, b':', 0x80]] {
